@@ -1154,11 +1154,32 @@ def r5_7(ctx):
 
 
 def r5_8(ctx):
-    from .common import units_check
+    from .common import units_check, TEXT_PARAM_UNITS as TEXT_PARAM_UNITS_
     ctx.rule("R5.8", "units in Text's width operations: truncate(max_width) and align(width) measure the text in terminal cells (cell_len) wherever it is compared with or subtracted from the requested width - never by its character count")
     m = ctx.repo.mod(TEXT_MOD)
     units_check(ctx, m.fn("Text.truncate"), {"max_width"}, floor=2)
     units_check(ctx, m.fn("Text.align"), {"width"}, floor=1)
+    # the other methods that take a width in cells: whatever they compare it with must be a cell measure too (a `len(line) <= width`
+    # short cut in wrap() skips the division of a line of double-width characters that does not fit)
+    # (rstrip_end compares len(self) with its width: with wide characters it strips fewer blanks than it could and truncate() crops
+    #  the rest, with zero-width characters it strips a blank that would have fitted - only trailing blanks either way, so the
+    #  property holds and the comparison is not put under this rule)
+    for mname in ("wrap",):
+        fm = m.functions.get(f"Text.{mname}")
+        if fm is not None:
+            units_check(ctx, fm, set(TEXT_PARAM_UNITS_[mname]), floor=0)
+    # units across calls between the text-shaping methods (set_length counts characters, truncate / align / wrap count cells)
+    n_calls = 0
+    from .common import units_calls_check
+    for mname in ("set_length", "truncate", "align", "wrap", "rstrip_end", "right_crop", "fit", "pad", "remove_suffix"):
+        fm = m.functions.get(f"Text.{mname}")
+        if fm is not None:
+            n_calls += units_calls_check(ctx, fm, mname)
+    cm = ctx.repo.mod("containers")
+    fj = cm.functions.get("Lines.justify")
+    if fj is not None:
+        n_calls += units_calls_check(ctx, fj, "justify")
+    ctx.floor(n_calls, 4, "width arguments passed between text-shaping methods")
 
 
 def r5_9(ctx):
